@@ -20,7 +20,7 @@ From Similari Require Import Model.DistProto Model.DistProtoFine.
 Import ListNotations.
 """
 
-FIELDS = ["kind", "S", "cls", "ob", "store", "cands", "sched", "recv", "mode"]
+FIELDS = ["kind", "mv", "S", "cls", "ob", "store", "cands", "sched", "recv", "mode"]
 
 
 def ensure_cargo_cfg():
@@ -61,7 +61,7 @@ def parse_run(line):
     for tok in line.split()[1:]:
         k, v = tok.split("=", 1)
         d[k] = v
-    r = {"raw": line, "kind": d["kind"], "S": int(d["S"]), "cls": int(d["cls"]), "ob": d["ob"] == "1",
+    r = {"raw": line, "kind": d["kind"], "mv": int(d.get("mv", "1")), "S": int(d["S"]), "cls": int(d["cls"]), "ob": d["ob"] == "1",
          "store": dec_tracks(d["store"]), "sched": [t for t in d["sched"].split(".") if t], "recv": int(d["recv"]),
          "mode": d["mode"], "status": d["status"], "other_err": int(d["other_err"]), "after": d["after"],
          "before": d.get("before", ""),
@@ -89,8 +89,8 @@ def parse_run(line):
 def case_text(r):
     """the replayable identity of a run (input of `sched c10replay`)"""
     cands = ",".join(enc_track(t) for t in r["cands"]) if r["kind"] == "foreign" else ",".join(str(i) for i in r["ids"])
-    return "kind=%s S=%d cls=%d ob=%d store=%s cands=%s sched=%s recv=%d mode=%s" % (
-        r["kind"], r["S"], r["cls"], 1 if r["ob"] else 0, ",".join(enc_track(t) for t in r["store"]), cands,
+    return "kind=%s mv=%d S=%d cls=%d ob=%d store=%s cands=%s sched=%s recv=%d mode=%s" % (
+        r["kind"], r["mv"], r["S"], r["cls"], 1 if r["ob"] else 0, ",".join(enc_track(t) for t in r["store"]), cands,
         ".".join(r["sched"]), r["recv"], r["mode"])
 
 
@@ -109,6 +109,16 @@ def metric(cls, a, b):
     if m == 1:
         return (None, fd)
     return (16 * a + b + cls, fd)
+
+
+def metric2(cls, a, b):
+    """second scripted metric (no postprocess_distances of its own): (None, None) is a value too"""
+    m = (a + b) % 4
+    if m == 0:
+        return None
+    if m == 1:
+        return (None, None if a % 2 == 0 else a)
+    return (16 * a + b + cls, a if (a * b) % 2 == 0 else None)
 
 
 def obs_of(t, cls):
@@ -151,10 +161,10 @@ def spec(r):
                 continue
             for a in l:
                 for b in rr:
-                    m = metric(r["cls"], a, b)
+                    m = metric(r["cls"], a, b) if r["mv"] == 1 else metric2(r["cls"], a, b)
                     if m is None:
                         continue
-                    if c["grp"] == 2 and m[0] is None:      # this candidate's postprocess_distances drops them
+                    if r["mv"] == 1 and c["grp"] == 2 and m[0] is None:     # this candidate's own postprocess_distances drops them
                         continue
                     ok.append((c["id"], o["id"], m[0], m[1]))
     return ok, err
@@ -264,9 +274,9 @@ def coq_case(r):
     ob = vlib.coq_bool(r["ob"])
     if r["kind"] == "foreign":
         cands = vlib.coq_list(["(%s)" % coq_track(t) for t in r["cands"]])
-        return "DistInstFine.run_foreign_fine %s %s %d%%N %s %s" % (sh, cands, r["cls"], ob, lab)
+        return "%s.run_foreign_fine %s %s %d%%N %s %s" % ("DistInstFine" if r["mv"] == 1 else "DistInstFine2", sh, cands, r["cls"], ob, lab)
     ids = vlib.coq_list(["%d%%N" % i for i in r["ids"]])
-    return "DistInstFine.run_owned_fine %s %s %d%%N %s %s" % (sh, ids, r["cls"], ob, lab)
+    return "%s.run_owned_fine %s %s %d%%N %s %s" % ("DistInstFine" if r["mv"] == 1 else "DistInstFine2", sh, ids, r["cls"], ob, lab)
 
 
 def opt(v):
@@ -440,6 +450,9 @@ def run(chk):
     trace_diff = []
     for i, r in enumerate(runs):
         hist["%s/%s" % (r["kind"], r["mode"])] += 1
+        hist["metric_variant=%d" % r["mv"]] += 1
+        if any(am is None and fd is None for _, _, am, fd in r["ok"]):
+            hist["with_(None,None)_results"] += 1
         hist["shards=%d" % r["S"]] += 1
         hist["cands=%d" % len(effective_cands(r))] += 1
         hist["only_baked=%d" % r["ob"]] += 1
